@@ -8,6 +8,8 @@ import (
 	"sync"
 	"testing"
 	_ "unsafe"
+
+	"berty.tech/weshnet/v2/internal/verifsim/sched"
 )
 
 // Deterministic cryptographic randomness: the same mechanism as testing/cryptotest.SetGlobalRandom
@@ -58,6 +60,8 @@ func SeedCrypto(seed uint64) {
 	cryptoReader.r = mathrand.NewChaCha8(s)
 	cryptoReader.n = 0
 	cryptoReader.mu.Unlock()
+	// the same drawn value decides the iteration order of maps in files that went through the instrumenter
+	sched.SetMapSalt(seed | 1)
 }
 
 // CryptoBytesRead reports how many random bytes the run consumed (enters no decision).
